@@ -6,6 +6,7 @@ import (
 	"fmt"
 	"math/rand"
 	"net"
+	"strings"
 	"sync"
 	"testing"
 	"time"
@@ -411,8 +412,16 @@ func c15Pair(variant string, rng *rand.Rand) (a, b net.Conn, cleanup func(), err
 	return nil, nil, nil, fmt.Errorf("unknown variant")
 }
 
-func runC15Conn(c *mon.Case, variant string) {
-	rng := c.Rng
+func runC15Conn(c *mon.Case, variant string) { runC15ConnAttempt(c, variant, 0) }
+
+// runC15ConnAttempt runs one transfer. The K variant is a real GBN connection
+// over the relay on the real clock: on a loaded machine it can die of its own
+// timers (a retransmitted SYN makes the first connection dead on arrival). A
+// transfer that fails with a transport error and a correct prefix is therefore
+// repeated with the same inputs, and only a failure that shows three times in a
+// row is reported.
+func runC15ConnAttempt(c *mon.Case, variant string, attempt int) {
+	rng := rand.New(rand.NewSource(c.Seed))
 	a, b, cleanup, err := c15Pair(variant, rng)
 	if err != nil {
 		c.Shard.Inconc(variant + ": " + err.Error())
@@ -564,6 +573,26 @@ func runC15Conn(c *mon.Case, variant string) {
 		bad("transfer did not finish within 150 s")
 		cleanup()
 		<-done
+	}
+	if variant == "K" && len(viol) > 0 {
+		transportOnly := true
+		for _, v := range viol {
+			if !(strings.HasPrefix(v, "Read failed after") || strings.Contains(v, "bytes failed:") ||
+				strings.HasPrefix(v, "reader still waiting") || strings.HasPrefix(v, "transfer did not finish")) {
+				transportOnly = false
+			}
+		}
+		if transportOnly && attempt < 2 {
+			c.Shard.Count("K_transport_failures_repeated", 1)
+			runC15ConnAttempt(c, variant, attempt+1)
+			return
+		}
+		if transportOnly {
+			rep["attempts"] = attempt + 1
+		}
+	}
+	if attempt > 0 && len(viol) == 0 {
+		c.Shard.Inconc(fmt.Sprintf("case %d: the mailbox connection failed %d time(s) with a transport error and then transferred everything correctly with the same inputs (load)", c.Idx, attempt))
 	}
 	for _, v := range viol {
 		kind := "contract"
